@@ -16,13 +16,13 @@ RULE = (
     "cases: forest op programs (<= 40 ops) restricted to modules, sections, intervals, blocks, proxies and symbols "
     "with symbol ops: rename (pool '', 'a', 'b', 'é' so names collide), payload <- block | proxy | int (0 included) | "
     "None via referent= / value=, Symbol(payload=, module=) construction, symbol add/remove/move from both ends, "
-    "block / proxy / interval / section / module moves, load(save(ir)); non-trivial = a rename or payload change is "
+    "block / proxy / interval / section / module moves, a referenced block / proxy leaving its parent and coming straight back by five routes, load(save(ir)); non-trivial = a rename or payload change is "
     "applied to a symbol that is in a module (the following lookups must reflect it); distinct = SHA-1 of canonical JSON"
 )
 ASSUMPTIONS = c03_uuid.ASSUMPTIONS
 REQUIRED_TAGS = {
-    "quick": ["rename-attached", "payload-attached", "op:payload", "op:newsym", "referent-moved"],
-    "thorough": ["rename-attached", "payload-attached", "op:payload", "op:newsym", "referent-moved"],
+    "quick": ["rename-attached", "payload-attached", "op:payload", "op:newsym", "referent-moved", "referent-bounced:route0", "referent-bounced:route2"],
+    "thorough": ["rename-attached", "payload-attached", "op:payload", "op:newsym", "referent-moved", "referent-bounced:route0", "referent-bounced:route2"],
 }
 PREFIXES = ("symidx:",)
 c03_uuid.ID_OF[PREFIXES] = "C10"
